@@ -16,7 +16,7 @@ use crate::{
     gen::{chacha, ctx_strategy, mask_of, rand_scalar, slot_strategy, Cfg, CtxSpec, SeedSpec, SlotSpec, Triple, TripleSpec, BITS},
     mutate::{fresh_point, proof_mut, ProofMut, UNDECODABLE},
     refimpl::{Grp, Proof},
-    runner::{guarded, no_fixed, sub, CaseLog, PropertyDef, RunCtx, Sub},
+    runner::{guarded, setup, no_fixed, sub, CaseLog, PropertyDef, RunCtx, Sub},
 };
 
 #[derive(Clone, Debug, Serialize, Deserialize)]
@@ -115,7 +115,7 @@ fn honest<E: Engine>(cfg: Cfg, hm: &HMember, ctx: &CtxSpec, seed: bool) -> Resul
         bulk: hm.bulk,
     };
     let t = Triple::<E>::build(&spec)?;
-    let p = guarded(|| t.prove())?.map_err(|e| format!("prover refused a valid witness: {:?}", e))?;
+    let p = setup(guarded(|| t.prove()), "the prover refused or panicked on a valid witness (C01's subject)")?;
     Ok((t, p))
 }
 
@@ -434,7 +434,8 @@ pub fn long_work_oracle(_ctx: &RunCtx, spec: &crate::props::c01::LongSpec, log: 
     let r = verify_members::<F>(&seq, action);
     let (bytes_req, max_req, _) = alloc::count_stop();
     let ops = fp::ops();
-    r?.map_err(|e| format!("all-honest batch of {} rejected: {}", k, e))?;
+    // (that an all-honest batch is accepted is C01's / C03's subject; a refusal leaves nothing to measure here)
+    crate::runner::setup(r, "the all-honest long batch is rejected (C01's / C03's subject)")?;
     // honest long batches measure at most 8.2 operations and 3.5 kB per unit (200 batches, k up to 520); the hostile-input bound
     // above is kept loose for small inputs, this one is twelve times the measured maximum
     let ops_bound = LONG_OPS_PER_UNIT * s_total + LONG_OPS_BASE;
